@@ -214,14 +214,45 @@ func (w *World) QualName(fn *types.Func) string {
 
 // MustFunc resolves an anchor function or aborts as undecided.
 func (w *World) MustFunc(q string) *FuncInfo {
-	fi := w.FuncBy[q]
+	fi := w.Func(q)
 	if fi == nil {
 		Undecided("anchor function %s no longer resolvable", q)
 	}
 	return fi
 }
 
-func (w *World) Func(q string) *FuncInfo { return w.FuncBy[q] }
+// Func resolves a qualified name (pkg.Func, pkg.(T).Method, pkg.(*T).Method). When the exact spelling is gone, the
+// one function or method of the same package with the same bare name is taken instead: turning a method into a
+// function, or a value receiver into a pointer receiver, keeps an anchor.
+func (w *World) Func(q string) *FuncInfo {
+	if fi := w.FuncBy[q]; fi != nil {
+		return fi
+	}
+	slash := strings.LastIndex(q, "/")
+	dot := strings.Index(q[slash+1:], ".")
+	if dot < 0 {
+		return nil
+	}
+	pkg := q[:slash+1+dot]
+	bare := q[strings.LastIndex(q, ".")+1:]
+	var found *FuncInfo
+	n := 0
+	for name, fi := range w.FuncBy {
+		s2 := strings.LastIndex(name, "/")
+		d2 := strings.Index(name[s2+1:], ".")
+		if d2 < 0 || name[:s2+1+d2] != pkg {
+			continue
+		}
+		if name[strings.LastIndex(name, ".")+1:] == bare {
+			found = fi
+			n++
+		}
+	}
+	if n == 1 {
+		return found
+	}
+	return nil
+}
 
 // Pos renders a position relative to the repo.
 func (w *World) Pos(p token.Pos) string {
